@@ -127,6 +127,8 @@ def _events(res, rows):
                     ids.append(cand[0] + 1 if cand else 0)
                     intact = False
         ev.append({"ev": "Deliver", "ids": ids, "intact": intact, "lines": ln})
+    if res.get("count") is not None:
+        ev.append({"ev": "Count", "n": res["count"]})
     ev.append({"ev": res["status"]})
     return ev
 
@@ -226,6 +228,15 @@ def record_trace(job):
         o = outcome(run)
         if o[0] == "err":
             res["status"], res["msg"] = "Fail", o[1]
+        else:
+            # the entries of the same file counted without parsing them, and the whole file through bnp.read
+            c = outcome(lambda: int(bnp.count_entries(path, **kw)))
+            res["count"] = c[1] if c[0] == "ok" else -1
+            if not job.get("then_read") and job["K"] % 3 == 0:
+                from bionumpy.io.files import read as bnp_read
+                w = outcome(lambda: formats.project_table(bnp_read(path, **kw)))
+                if w[0] == "err" or w[1] != [r for ch in res["chunks"] for r in ch]:
+                    res["count"] = -2          # bnp.read differs from the chunks: reported through the Count clause
         os.remove(path)
     nl_per_entry = [t.count("\n") for t in _entry_texts(fmt, job["specs"], job["crlf"])]
     tr = {"tid": job["tid"], "n": len(rows), "K": K, "maxlen": max(lens), "entryLines": nl_per_entry, "bad": 0,
